@@ -128,3 +128,11 @@ Inductive rh_op := RAdd (n : node) | RRemove (l : N).
 Definition rh_step (ns : list node) (o : rh_op) : list node :=
   match o with RAdd n => add_node n ns | RRemove l => remove_node l ns end.
 Definition rh_run (ops : list rh_op) : list node := fold_left rh_step ops [].
+
+(* ---- the instance executed on observed cases (C21 and C22 drivers) ----
+   For execution the key IS the row of real scores the implementation computed for it:
+   entry i = order-preserving image in N of  pool[i].Score(key)  (drivers: code of a float64:
+   bits with the sign bit flipped for non-negative values, all bits flipped for negative ones,
+   -0 normalised to +0).  Node labels are pool indices 0..p-1. *)
+Definition row := list N.
+Definition tscore (n : node) (r : row) : N := nth (N.to_nat (label n)) r 0%N.
